@@ -48,6 +48,24 @@ type kernelD struct {
 	Nvbit     string   `json:"nvbit"`
 	TracerVer string   `json:"tracer"`
 	Blocks    []blockD `json:"blocks"`
+
+	// as written by the last writeTrace (form.go: file naming, long kernel name)
+	wFile, wName string
+	shuffled     bool
+}
+
+func (k *kernelD) nameWritten() string {
+	if k.wName != "" {
+		return k.wName
+	}
+	return k.Name
+}
+
+func (k *kernelD) fileWritten() string {
+	if k.wFile != "" {
+		return k.wFile
+	}
+	return k.File
 }
 
 type execD struct {
@@ -69,6 +87,9 @@ type shapeD struct {
 type styleD struct {
 	BlankAfterWarp int  `json:"blank_after_warp"` // blank lines after each warp's instructions
 	ShuffleBlocks  bool `json:"shuffle_blocks"`
+	// Form is the byte-level serialisation form of kernelslist.g and of the
+	// kernel trace files; the zero value is the layout of the shipped sample.
+	Form formD `json:"form"`
 }
 
 type caseD struct {
@@ -348,6 +369,7 @@ var a100 = shapeD{A100: true, Devices: 1, SMs: 108, Subcores: 4, FreqHz: 1}
 // genCase is a pure function of (r, idx).
 func genCase(r *vlib.PRNG, idx int) *caseD {
 	c := &caseD{Name: fmt.Sprintf("s%d", idx), Index: idx}
+	form := genForm(r.Fork("form")) // forked: the traces themselves are the ones generated before forms existed
 	c.Shape = genShape(r)
 	if idx%10 == 3 {
 		c.Shape = a100
@@ -357,7 +379,7 @@ func genCase(r *vlib.PRNG, idx int) *caseD {
 		c.Name += "-shipped-sample"
 		return c
 	}
-	c.Style = styleD{BlankAfterWarp: 1 + r.Intn(2), ShuffleBlocks: r.Chance(1, 4)}
+	c.Style = styleD{BlankAfterWarp: 1 + r.Intn(2), ShuffleBlocks: r.Chance(1, 4), Form: form}
 	var sc sizeClass
 	switch v := r.Intn(10); {
 	case v < 6:
@@ -449,7 +471,7 @@ func canonical() []*caseD {
 		return &caseD{Name: "canon-probe-register-R32", Shape: sh(1, 1, 1), Style: st, Execs: []execD{{Kernel: k}},
 			Probe: "register operands outside R0..R31/R255 (valid accel-sim register names)"}
 	}
-	return []*caseD{
+	out := []*caseD{
 		// the spike of DESIGN.md: 2 blocks, warps of 2,0 and 1 instructions on 2 SM x 2 sub-cores
 		mk("canon-empty-warp-2blocks-2sm-2sc", sh(1, 2, 2), [][]int{{2, 0}, {1}}),
 		// a single empty warp, one unit of everything: isolates the sub-core's completion rule
@@ -469,4 +491,42 @@ func canonical() []*caseD {
 		{Name: "canon-shipped-sample-a100", Shipped: true, Shape: a100},
 		{Name: "canon-shipped-sample-2x3x2", Shipped: true, Shape: sh(2, 3, 2)},
 	}
+	// ---- serialisation forms: every dimension on its own, on a list of
+	// 2 memcpy + 3 kernels that ends in a kernel entry, with memory instructions ----
+	formCase := func(name string, f formD, nKernels int, tail bool) *caseD {
+		c := &caseD{Name: name, Shape: sh(1, 2, 2), Style: styleD{BlankAfterWarp: 1, Form: f}}
+		if nKernels > 1 {
+			c.Execs = append(c.Execs, execD{Dir: "MemcpyHtoD", Addr: 0x00007fb0fc400000, Len: 200000}, execD{Dir: "MemcpyHtoD", Addr: 0x00007fb0fc430e00, Len: 200000})
+		}
+		shapes := [][][]int{{{2, 1}, {1}}, {{3}, {0, 2}}, {{1, 1}, {2}, {4}}}
+		for i := 0; i < nKernels; i++ {
+			k := mkKernel(i+1, shapes[i%3])
+			k.Name = fmt.Sprintf("_Z6kernelPfS_i_%d", i)
+			w := &k.Blocks[0].Warps[0]
+			w.Insts[0] = instD{PC: 0, Mask: 0xffffffff, Dst: []string{"R4"}, Op: "LDG.E", Src: []string{"R4"}, Width: 4, Mode: 1, Addrs: []uint64{0x7fb0fc430e00}, Stride: 4}
+			w.Insts[len(w.Insts)-1].Imm = 7 // the last field of the last instruction of the warp
+			last := &k.Blocks[len(k.Blocks)-1]
+			lw := &last.Warps[len(last.Warps)-1]
+			lw.Insts[len(lw.Insts)-1] = instD{PC: 0x30, Mask: 0x7, Op: "STS", Src: []string{"R3", "R255"}, Width: 4, Mode: 2, Addrs: []uint64{0x1000}, Deltas: []int32{4, -8}, Imm: -3}
+			c.Execs = append(c.Execs, execD{Kernel: k})
+		}
+		if tail {
+			c.Execs = append(c.Execs, execD{Dir: "MemcpyDtoH", Addr: 0x00007fb0fc461c00, Len: 4})
+		}
+		return c
+	}
+	for _, d := range formDims {
+		out = append(out, formCase("canon-form-"+d, singleForm(d), 3, false))
+	}
+	everything := formD{ListCRLF: true, ListNoFinalNL: true, ListBlank: true, ListMemcpyWS: true, Names: "multi-digit", CRLF: true, NoFinalNL: true,
+		Blank: "many", Trailing: true, InstLead: true, Comments: "extra", LongName: true}
+	minimal := formD{ListNoFinalNL: true, Names: "descending", NoFinalNL: true, Blank: "none", Comments: "none"}
+	out = append(out,
+		formCase("canon-form-list-is-a-single-unterminated-line", singleForm("list-no-final-newline"), 1, false),
+		formCase("canon-form-list-unterminated-crlf-file", formD{ListCRLF: true, ListNoFinalNL: true}, 3, false),
+		formCase("canon-form-list-ends-in-unterminated-memcpy", formD{ListNoFinalNL: true, ListMemcpyWS: true}, 3, true),
+		formCase("canon-form-every-dimension-at-once", everything, 3, false),
+		formCase("canon-form-no-blank-no-comment-no-final-newline", minimal, 3, false),
+		formCase("canon-form-11-kernels-multi-digit-names", formD{Names: "descending", ListBlank: true}, 11, true))
+	return out
 }
